@@ -904,6 +904,15 @@ def programs(tier):
             if it is not None and it["id"] not in seen:
                 add(it)
                 n3 += 1
+    # ---- dedicated: value, in-place modification, the same value again (results memoised inside the carrier must
+    #      follow every later modification of it)
+    for v in ("todense", "diag_0", "ct", "ct_M", "ct_S", "cm", "cm_d", "gi_ii", "dot_x"):
+        for mo in INP_OPS:
+            for ty in [("r", "r", "r"), ("c", "c", "c")]:
+                it = _draw([v, mo, v], _rng("vmv|%s|%s|%s" % (v, mo, ty)), nd=2, types=ty)
+                if it is not None:
+                    it["id"] = "vmv-" + it["id"]
+                    add(it)
     # ---- dedicated: input vectors may be zero vectors, scalars may be zero
     zprogs = [[], ["copy"], ["neg"], ["T"], ["conj"], ["real"], ["mul_s"], ["add_B"], ["iadd_B"], ["mm_M"],
               ["gi_ss"], ["diag_0"], ["dot_x"], ["ct_M"], ["set_row", "copy"]]
